@@ -1,5 +1,5 @@
 """registry — which rules decide which property (and with what configuration)."""
-from rules import codec, writer, iterator, writer_abs, sizes
+from rules import codec, writer, iterator, writer_abs, sizes, flow
 
 RULES = {
     "R-PANIC-VINT": codec.r_panic_vint,
@@ -33,9 +33,35 @@ RULES = {
     "R-RECOVER": iterator.r_recover,
     "R-TOL": iterator.r_tol,
     "R-TOL-DEFAULT": iterator.r_tol_default,
+    "R-OFFSET": flow.r_offset,
+    "R-OFFSET-BOOK": flow.r_offset_book,
+    "R-TILE": flow.r_tile,
+    "R-STACK-END": flow.r_stack_end,
+    "R-CLOSE": flow.r_eof_flag,
+    "R-OVERRUN-ALL": flow.r_overrun_all,
+    "L-BUFFER-PROGRESS": flow.r_buffer_progress,
 }
 
 PROPERTIES = {
+    "C03": {
+        "rules": ["R-OFFSET-BOOK", "R-TILE", "R-OFFSET", "R-DEC-CLASS", "R-DEC-RANGE"],
+        "level": "other",
+        "explanation": "Abstract interpretation with ghost variables of the buffer bookkeeping (buffer[i] always holds stream byte buffer_offset+i; the "
+                       "cursor's stream offset survives compaction) and of read_tag (id parsed at the cursor, size right after it, header advances by "
+                       "id length + size length, payload by exactly the declared size, tag_start/data_start = cursor before/after the header), plus "
+                       "value-flow of the (tag, offset) pairs into the queue (an End/Full item reports its master's own tag_start, implied ancestors 0) "
+                       "and the payload decoders' length classes.  Not decided: that the decoded number/string equals the bytes' value.",
+    },
+    "C06": {
+        "rules": ["R-STACK-END", "R-CLOSE", "R-OVERRUN-ALL", "R-SHARED-MATCHER", "R-TOL"],
+        "level": "other",
+        "explanation": "Typestate/value-flow rules over read_next and header validation: only End-form tags are stored on the open-master stack; the "
+                       "stack shrinks only at the three closing sites (exhausted known-size masters drained innermost-first before the next header, "
+                       "unknown-size masters popped in a loop decided by is_ended_by, everything closed innermost-first at end of input under the "
+                       "EOF switch); the overrun test scans every ancestor; the hierarchy matcher is the single shared one; in strict mode no "
+                       "corruption kind is tolerated (R-TOL, mask 0).  Not decided: that the matcher implements the declared-path semantics, nor "
+                       "well-nestedness of the emitted sequence as such.",
+    },
     "C01": {
         "rules": ["R-SIZE-TABLE", "R-UNKNOWN-MARKER", "R-CODEC-PAIR", "R-PAYLOAD-WIDTH"],
         "level": "other",
@@ -108,7 +134,7 @@ PROPERTIES = {
                        "return.  Where recovery resumes (first sentence of the property) is behavioural and not decided.",
     },
     "C05": {
-        "rules": ["R-PANIC-ITER", "R-SPEC-CONSIST", "R-PANIC-PAYLOAD", "L-ADVANCE"],
+        "rules": ["R-PANIC-ITER", "R-SPEC-CONSIST", "R-PANIC-PAYLOAD", "L-ADVANCE", "L-BUFFER-PROGRESS"],
         "level": "proof",
         "explanation": "Abstract interpretation of next() and try_recover() from any object state satisfying the (inductively proved) buffer "
                        "invariant: every compiler-inserted assert, std precondition and explicit panic reachable from the public API is discharged "
